@@ -1,9 +1,27 @@
-/-! Certification core of the aggregator: open messages, certificates, the five runtime states. -/
+/-!
+Certification core of the aggregator (C14, C15, C16): runtime states, epoch initialisation, open
+messages, single signatures (direct and buffered), certificates, signed entities.
+
+Transliterated from `mithril-aggregator`:
+* `runtime/state_machine.rs` (`cycle_idle/blocked/ready/signing`, `transition_from_idle`),
+* `runtime/runner.rs` (`get_current_non_certified_open_message`, `is_open_message_outdated`),
+* `services/certifier/certifier_service.rs` (`register_single_signature`, `create_certificate`,
+  `mark_open_message_if_expired`, `inform_epoch`, `verify_certificate_chain`'s gap test),
+* `services/certifier/buffered_certifier.rs` (buffering on `NotFound`, hand-over at open-message creation),
+* `services/epoch_service.rs` (`inform_epoch`, `precompute_epoch_data`: signer sets of key `e-1` / `e`),
+* `services/signer_registration/leader.rs` (`register_signer`), the round opener,
+* `database/query/certificate/get_master_certificate.rs`, the unique indexes of `migration.rs`.
+
+Results of cryptographic primitives are inputs: for a signature, the message it signs (`msg`), the
+epochs whose signer set verifies it (`ok`) and the lottery indices it carries (`idx`); the protocol
+message of a new open message (`Tp.newmsg`). sqlite tables are lists in ROWID order.
+-/
 namespace Agg
 
 structure OM where
   entity : Nat
   epoch : Nat
+  msg : Nat
   certified : Bool
   expired : Bool
   expiresAt : Option Nat
@@ -14,11 +32,45 @@ structure CertRec where
   entity : Option Nat      -- `none`: genesis
   epoch : Nat
   parent : Option Nat      -- id of the parent certificate
+  avk : Nat                -- epoch whose `current` signer set gave the aggregate key (ghost)
+deriving Repr, DecidableEq
+
+/-- a row of `single_signature`: `party` is the label it is stored under, `sigma` identifies the
+signature value; `signer`, `msg` and `vEpoch` are ghost (whose key produced it, what it was
+verified for / under) -/
+structure SigRow where
+  entity : Nat
+  party : Nat
+  sigma : Nat
+  idx : List Nat
+  signer : Nat
+  msg : Nat
+  vEpoch : Nat
+deriving Repr, DecidableEq
+
+/-- a submitted signature: the label (`party_id`) it is sent under and the primitive verdicts:
+`signer` = the party whose registered key sits at the signature's `signer_index` (distinct parties
+register distinct keys), `sigma` = identity of the signature value, `msg` = the message it signs,
+`ok` = the epochs whose signer set verifies it for `msg`, `idx` = the lottery indices it carries -/
+structure Sig where
+  party : Nat
+  signer : Nat
+  sigma : Nat
+  msg : Nat
+  ok : List Nat
+  idx : List Nat
+  auth : Bool
+deriving Repr, DecidableEq
+
+/-- a row of `buffered_single_signature` -/
+structure BufSig where
+  disc : Nat
+  sig : Sig
 deriving Repr, DecidableEq
 
 inductive Rt where
   | idle (last : Option Nat)
-  | blocked (since : Nat)
+  | blocked (since : Nat) (why : Nat)     -- why: 0 no genesis, 1 genesis epoch, 2 epoch gap
   | ready (ep : Nat)
   | signing (ep : Nat) (entity : Nat)
 deriving Repr, DecidableEq
@@ -27,9 +79,14 @@ structure St where
   rt : Rt
   oms : List OM
   certs : List CertRec          -- insertion order
-  sigs : List (Nat × Nat)       -- (entity, party) rows
+  sigs : List SigRow
   cleaned : Nat                 -- open messages below this epoch have been deleted (ghost)
   seen : Nat                    -- highest epoch seen by a tick (ghost)
+  buf : List BufSig
+  ses : List (Nat × Nat)        -- signed_entity rows: (entity, certificate id)
+  regs : List (Nat × Nat)       -- signer registrations: (epoch key, party)
+  es : Option Nat               -- epoch service: epoch whose data is computed
+  round : Option Nat            -- open registration round (epoch key)
 deriving Repr
 
 /-- what a tick sees -/
@@ -37,11 +94,13 @@ structure Tp where
   epoch : Nat
   now : Nat
   avail : List Nat              -- entities derived from the time point, in discriminant order
+  newmsg : Nat                  -- protocol message of the open message this tick creates, if it creates one
 
 /-- configuration / environment -/
 structure Env where
   entityEpoch : Nat → Nat                 -- epoch at which an entity is signed
-  quorum : Nat → List Nat → Bool          -- entity, parties that signed
+  entityDisc : Nat → Nat                  -- discriminant of an entity
+  quorum : Nat → List SigRow → Bool       -- entity, its stored signatures
   timeout : Nat → Option Nat              -- entity ↦ duration
 
 def findOm (e : Nat) : List OM → Option OM
@@ -68,13 +127,17 @@ def isMaster (certs : List CertRec) (c : CertRec) : Bool :=
   | none => true
   | some p => match certById p certs with
     | some pc => pc.epoch ≠ c.epoch
-    | none => true
+    | none => false
 
 /-- `MasterCertificateQuery::for_epoch`: latest inserted first-of-epoch certificate in {e-1, e} -/
 def master (certs : List CertRec) (e : Nat) : Option CertRec :=
   (certs.filter (fun c => (c.epoch = e || c.epoch + 1 = e) && isMaster certs c)).getLast?
 
 def absDiff (a b : Nat) : Nat := if a ≤ b then b - a else a - b
+
+def signersOf (regs : List (Nat × Nat)) (key : Nat) : List Nat := (regs.filter (·.1 = key)).map (·.2)
+
+def genesisEpoch (certs : List CertRec) : Option Nat := ((certs.filter (·.entity.isNone)).getLast?).map (·.epoch)
 
 /-- scan of `get_current_non_certified_open_message` -/
 def scan (E : Env) (tp : Tp) : List Nat → List OM → List OM × Option Nat
@@ -83,10 +146,89 @@ def scan (E : Env) (tp : Tp) : List Nat → List OM → List OM × Option Nat
     let oms1 := markExpired tp.now e oms
     match findOm e oms1 with
     | none =>
-      let om : OM := { entity := e, epoch := E.entityEpoch e, certified := false, expired := false,
+      let om : OM := { entity := e, epoch := E.entityEpoch e, msg := tp.newmsg, certified := false, expired := false,
                         expiresAt := (E.timeout e).map (· + tp.now) }
       (oms1 ++ [om], some e)
     | some o => if !o.certified && !o.expired then (oms1, some e) else scan E tp r oms1
+
+/-! ### single signatures -/
+
+inductive SigClass where
+  | registered | buffered | notFound | certified | expired | invalid | storeErr
+deriving Repr, DecidableEq
+
+/-- `MultiSigner::verify_single_signature` with the epoch service's current signer set, before the
+repair of C16: the key is looked up by the slot inside the signature, the label is never consulted -/
+def sigValidUnbound (s : St) (o : OM) (g : Sig) : Bool :=
+  match s.es with
+  | none => false
+  | some ep => g.msg = o.msg && g.ok.contains ep
+
+/-- the same after the repair: the key at the slot must be the key registered by the label -/
+def sigValid (s : St) (o : OM) (g : Sig) : Bool :=
+  match s.es with
+  | none => false
+  | some ep => g.msg = o.msg && g.ok.contains ep && g.party = g.signer
+
+/-- decision of `BufferedCertifierService::register_single_signature` over `MithrilCertifierService` -/
+def sigClass (s : St) (e : Nat) (g : Sig) : SigClass :=
+  match findOm e s.oms with
+  | none => if g.auth then .buffered else .notFound
+  | some o =>
+    if o.certified then .certified
+    else if o.expired then .expired
+    else if !sigValid s o g then .invalid
+    else if !(signersOf s.regs (o.epoch - 1)).contains g.party then .storeErr   -- foreign key on signer_registration
+    else .registered
+
+def storeSig (s : St) (e : Nat) (g : Sig) : St :=
+  { s with sigs := (s.sigs.filter (fun r => !(r.entity = e && r.party = g.party))) ++
+      [{ entity := e, party := g.party, sigma := g.sigma, idx := g.idx, signer := g.signer, msg := g.msg,
+         vEpoch := s.es.getD 0 }] }
+
+def bufferSig (E : Env) (s : St) (e : Nat) (g : Sig) : St :=
+  { s with buf := (s.buf.filter (fun b => !(b.disc = E.entityDisc e && b.sig.party = g.party))) ++
+      [{ disc := E.entityDisc e, sig := g }] }
+
+def registerSig (E : Env) (s : St) (e : Nat) (g : Sig) : St :=
+  match sigClass s e g with
+  | .registered => storeSig s e g
+  | .buffered => bufferSig E s e g
+  | _ => s
+
+/-- `try_register_buffered_signatures_to_current_open_message`: newest buffered row first; invalid ones
+are skipped and stay; any other failure aborts before anything is removed from the buffer -/
+def handOverGo (s : St) (e : Nat) : List BufSig → List Nat → St × Option (List Nat)
+  | [], removed => (s, some removed)
+  | b :: rest, removed =>
+    match sigClass s e b.sig with
+    | .registered => handOverGo (storeSig s e b.sig) e rest (b.sig.party :: removed)
+    | .invalid => handOverGo s e rest removed
+    | _ => (s, none)
+
+def handOver (E : Env) (s : St) (e : Nat) : St × Bool :=
+  let d := E.entityDisc e
+  match handOverGo s e (s.buf.filter (·.disc = d)).reverse [] with
+  | (s1, some removed) => ({ s1 with buf := s1.buf.filter (fun b => !(b.disc = d && removed.contains b.sig.party)) }, false)
+  | (s1, none) => (s1, true)
+
+/-! ### certificate creation -/
+
+/-- the new certificate `create_certificate` would insert, if every test passes -/
+def newCert (E : Env) (s : St) (e : Nat) : Option CertRec :=
+  match findOm e s.oms with
+  | none => none
+  | some o =>
+    if o.certified || o.expired then none
+    else match master s.certs o.epoch with
+      | none => none
+      | some m =>
+        if E.quorum e (s.sigs.filter (·.entity = e)) then
+          some { id := s.certs.length, entity := some e, epoch := o.epoch, parent := some m.id, avk := s.es.getD 0 }
+        else none
+
+def addSignedEntity (ses : List (Nat × Nat)) (e id : Nat) : List (Nat × Nat) :=
+  if ses.any (·.1 = e) then ses else ses ++ [(e, id)]     -- unique index (type, beacon)
 
 def createCertificate (E : Env) (s : St) (e : Nat) : St :=
   match findOm e s.oms with
@@ -96,57 +238,126 @@ def createCertificate (E : Env) (s : St) (e : Nat) : St :=
     else match master s.certs o.epoch with
       | none => s
       | some m =>
-        if E.quorum e ((s.sigs.filter (·.1 = e)).map (·.2)) then
-          { s with certs := s.certs ++ [{ id := s.certs.length, entity := some e, epoch := o.epoch, parent := some m.id }],
+        if E.quorum e (s.sigs.filter (·.entity = e)) then
+          { s with certs := s.certs ++ [{ id := s.certs.length, entity := some e, epoch := o.epoch, parent := some m.id, avk := s.es.getD 0 }],
                    oms := updOm e (fun o => { o with certified := true }) s.oms,
+                   ses := addSignedEntity s.ses e s.certs.length,
                    rt := match s.rt with | .signing ep _ => .ready ep | r => r }
         else s
 
+/-! ### epoch initialisation -/
+
+def preNeeded (s : St) (tp : Tp) : Bool := (genesisEpoch s.certs).any (· < tp.epoch)
+def signersOk (s : St) (tp : Tp) : Bool :=
+  !(signersOf s.regs (tp.epoch - 1)).isEmpty && !(signersOf s.regs tp.epoch).isEmpty
+
+/-- `execute_epoch_initialization_tasks` followed by `precompute_epoch_data` -/
+def epochInit (s : St) (tp : Tp) : St :=
+  let oms' := s.oms.filter (fun o => tp.epoch ≤ o.epoch)
+  { s with oms := oms',
+           sigs := s.sigs.filter (fun r => (findOm r.entity oms').isSome),     -- on delete cascade
+           cleaned := max s.cleaned tp.epoch,
+           round := some (tp.epoch + 1),
+           es := if preNeeded s tp && signersOk s tp then some tp.epoch else none }
+
+/-- `cycle_idle` (leader): epoch initialisation when the epoch is new, then `transition_from_idle` -/
+def idleStep (s : St) (tp : Tp) (last : Option Nat) : St :=
+  let run := last.isNone || last.any (· < tp.epoch)
+  let s1 : St := if run then epochInit s tp else s
+  if run && preNeeded s tp && !signersOk s tp then s1        -- precompute fails: error, state kept
+  else match s1.certs.getLast? with
+  | none => { s1 with rt := .blocked tp.epoch 0 }
+  | some latest =>
+    if absDiff tp.epoch latest.epoch > 1 then { s1 with rt := .blocked tp.epoch 2 }
+    else match genesisEpoch s1.certs with
+      | none => { s1 with rt := .blocked tp.epoch 0 }
+      | some g => if g = tp.epoch then { s1 with rt := .blocked tp.epoch 1 } else { s1 with rt := .ready tp.epoch }
+
+/-- `cycle_ready` when the epoch has not changed -/
+def readyStep (E : Env) (s : St) (tp : Tp) : St :=
+  match scan E tp tp.avail s.oms with
+  | (oms', some e) =>
+    let s1 : St := { s with oms := oms' }
+    if oms'.length = s.oms.length then { s1 with rt := .signing tp.epoch e }
+    else match handOver E s1 e with                                  -- a new open message: hand-over
+      | (s2, false) => { s2 with rt := .signing tp.epoch e }
+      | (s2, true) => s2      -- the store panics on the foreign key: the tick dies, runtime state kept
+  | (oms', none) => { s with oms := oms', rt := .ready tp.epoch }
+
+/-- `cycle_signing` -/
+def signingStep (E : Env) (s : St) (tp : Tp) (ep e : Nat) : St :=
+  let oms1 := markExpired tp.now e s.oms
+  let s1 := { s with oms := oms1 }
+  let outdated := (match findOm e oms1 with | some o => o.expired | none => false) || !(tp.avail.contains e)
+  if ep < tp.epoch then { s1 with rt := .idle (some ep) }
+  else if outdated then { s1 with rt := .ready ep }
+  else createCertificate E s1 e
+
 def tick (E : Env) (s : St) (tp : Tp) : St :=
   match s.rt with
-  | .idle last =>
-    let s1 : St := if last.isNone || last.any (· < tp.epoch) then
-        { s with oms := s.oms.filter (fun o => tp.epoch ≤ o.epoch),
-                 sigs := s.sigs,
-                 cleaned := max s.cleaned tp.epoch }
-      else s
-    match s1.certs.getLast? with
-    | none => { s1 with rt := .blocked tp.epoch }
-    | some latest =>
-      if absDiff tp.epoch latest.epoch > 1 then { s1 with rt := .blocked tp.epoch }
-      else match s1.certs.filter (·.entity.isNone) |>.getLast? with
-        | none => { s1 with rt := .blocked tp.epoch }
-        | some g => if g.epoch = tp.epoch then { s1 with rt := .blocked tp.epoch } else { s1 with rt := .ready tp.epoch }
-  | .blocked since => if since < tp.epoch then { s with rt := .idle (some since) } else s
+  | .idle last => idleStep s tp last
+  | .blocked since _ => if since < tp.epoch then { s with rt := .idle (some since) } else s
+  | .ready ep => if ep < tp.epoch then { s with rt := .idle (some ep) } else readyStep E s tp
+  | .signing ep e => signingStep E s tp ep e
+
+/-- how the tick ends: 0 = ok, 1 = error (state kept), 2 = panic -/
+def tickOut (E : Env) (s : St) (tp : Tp) : Nat :=
+  match s.rt with
+  | .idle last => if (last.isNone || last.any (· < tp.epoch)) && preNeeded s tp && !signersOk s tp then 1 else 0
   | .ready ep =>
-    if ep < tp.epoch then { s with rt := .idle (some ep) }
+    if ep < tp.epoch then 0
     else
       let (oms', r) := scan E tp tp.avail s.oms
       match r with
-      | some e => { s with oms := oms', rt := .signing tp.epoch e }
-      | none => { s with oms := oms', rt := .ready tp.epoch }
+      | some e => if oms'.length = s.oms.length then 0 else if (handOver E { s with oms := oms' } e).2 then 2 else 0
+      | none => 0
   | .signing ep e =>
     let oms1 := markExpired tp.now e s.oms
-    let s1 := { s with oms := oms1 }
     let outdated := (match findOm e oms1 with | some o => o.expired | none => false) || !(tp.avail.contains e)
-    if ep < tp.epoch then { s1 with rt := .idle (some ep) }
-    else if outdated then { s1 with rt := .ready ep }
-    else createCertificate E s1 e
+    if !(ep < tp.epoch) && !outdated && (newCert E { s with oms := oms1 } e).isNone then 1 else 0
+  | _ => 0
+
+/-! ### signer registration -/
+
+inductive RegClass where
+  | ok | existing | closed | epoch
+deriving Repr, DecidableEq
+
+def regClass (s : St) (key party : Nat) : RegClass :=
+  match s.round with
+  | none => .closed
+  | some k => if k ≠ key then .epoch
+    else if (signersOf s.regs key).contains party then .existing else .ok
+
+def register (s : St) (key party : Nat) : St :=
+  match regClass s key party with
+  | .ok => { s with regs := s.regs ++ [(key, party)] }
+  | _ => s
 
 inductive Event where
   | tick (tp : Tp)
-  | signature (entity party : Nat)
+  | signature (entity : Nat) (g : Sig)
+  | register (key party : Nat)
+  | expire (entity : Nat)
   | restart
-
-def registerSig (s : St) (e p : Nat) : St :=
-  match findOm e s.oms with
-  | none => s
-  | some o => if o.certified || o.expired then s
-    else { s with sigs := (s.sigs.filter (fun r => !(r.1 = e && r.2 = p))) ++ [(e, p)] }
 
 def step (E : Env) (s : St) : Event → St
   | .tick tp => { tick E s tp with seen := tp.epoch }
-  | .signature e p => registerSig s e p
-  | .restart => { s with rt := .idle none }
+  | .signature e g => registerSig E s e g
+  | .register key party => register s key party
+  | .expire e => { s with oms := updOm e (fun o => { o with expiresAt := some 0 }) s.oms }
+  | .restart => { s with rt := .idle none, es := none, round := none }
+
+/-- state right after the genesis certificate of epoch `g` has been stored, with `n` fixture signers
+recorded under the keys `g-1` and `g` (`init_state_from_fixture_for_genesis`) -/
+def init (n g : Nat) : St :=
+  { rt := .idle none, oms := [], certs := [{ id := 0, entity := none, epoch := g, parent := none, avk := g }],
+    sigs := [], cleaned := 0, seen := 0, buf := [], ses := [],
+    regs := (List.range n).map (fun p => (g - 1, p)) ++ (List.range n).map (fun p => (g, p)),
+    es := none, round := none }
+
+/-- quorum as the clerk decides it when no (key, index) pair is offered twice (C02): at least `k`
+distinct lottery indices among the stored signatures -/
+def quorumIdx (k : Nat) (rows : List SigRow) : Bool := k ≤ (rows.flatMap (·.idx)).eraseDups.length
 
 end Agg
